@@ -761,3 +761,329 @@ theorem cleanInv_step (c : Cfg) (s : St) (e : Ev) (hA : InvA s) (h : CleanInv s)
       | true => have := hr.topics a x hne hm; rw [g1 x] at this; cases this
 
 end Hap.Sys
+
+namespace Hap.Sys
+
+/-! ### monotone facts over arbitrary steps -/
+
+theorem step_nobj_le (c : Cfg) (s : St) (e : Ev) : s.nobj ≤ (step c s e).1.nobj := by
+  by_cases hc : ∃ a, e = Ev.connect a
+  · obtain ⟨a, rfl⟩ := hc; simp only [step]; split <;> simp
+  by_cases hl : ∃ p, e = Ev.lose p
+  · obtain ⟨p, rfl⟩ := hl; simp only [step]; split <;> simp [markLost, closeP, dropConn]
+  by_cases ht : ∃ dt, e = Ev.tick dt
+  · obtain ⟨dt, rfl⟩ := ht; simp [step]
+  exact Nat.le_of_eq (rel_step c s e (fun a he => hc ⟨a, he⟩) (fun p he => hl ⟨p, he⟩) (fun d he => ht ⟨d, he⟩)).nobj.symm
+
+/-- existing objects keep their address, stay closing / lost once they are -/
+theorem step_obj_mono (c : Cfg) (s : St) (e : Ev) (q : ObjId) (hq : q < s.nobj) :
+    ((step c s e).1.obj q).addr = (s.obj q).addr ∧
+    ((s.obj q).closing = true → ((step c s e).1.obj q).closing = true) ∧
+    ((s.obj q).lost = true → ((step c s e).1.obj q).lost = true) := by
+  by_cases hc : ∃ a, e = Ev.connect a
+  · obtain ⟨a, rfl⟩ := hc; simp only [step]; split
+    · simp
+    · simp [upd_apply, Nat.ne_of_lt hq]
+  by_cases hl : ∃ p, e = Ev.lose p
+  · obtain ⟨p, rfl⟩ := hl; simp only [step]; split
+    · simp only [markLost, closeP, dropConn, upd_apply]
+      by_cases hqp : q = p
+      · subst hqp; simp
+      · simp [hqp]
+    · simp
+  by_cases ht : ∃ dt, e = Ev.tick dt
+  · obtain ⟨dt, rfl⟩ := ht; simp [step]
+  have hr := rel_step c s e (fun a he => hc ⟨a, he⟩) (fun p he => hl ⟨p, he⟩) (fun d he => ht ⟨d, he⟩)
+  exact ⟨hr.addr q, hr.closing q, fun h => by rw [hr.lost]; exact h⟩
+
+/-- once all connections from `a` are lost this stays so until somebody connects from `a` again -/
+theorem allLost_step (c : Cfg) (s : St) (e : Ev) (a : Addr) (h : allLost s a) (hne : e ≠ Ev.connect a) :
+    allLost (step c s e).1 a := by
+  by_cases hc : ∃ a', e = Ev.connect a'
+  · obtain ⟨a', rfl⟩ := hc
+    have haa : a' ≠ a := fun e => hne (by rw [e])
+    simp only [step]; split
+    · exact h
+    · intro p hp hpa
+      simp only at hp hpa ⊢
+      by_cases hpn : p = s.nobj
+      · subst hpn; simp [upd_apply] at hpa; exact absurd hpa haa
+      · have hp' : p < s.nobj := by omega
+        simp only [upd_apply, hpn, if_false] at hpa ⊢
+        exact h p hp' hpa
+  · intro p hp hpa
+    by_cases hp' : p < s.nobj
+    · have := step_obj_mono c s e p hp'
+      rw [this.1] at hpa
+      exact this.2.2 (h p hp' hpa)
+    · -- no new object without a connect
+      exfalso
+      by_cases hl : ∃ p, e = Ev.lose p
+      · obtain ⟨p', rfl⟩ := hl
+        simp only [step] at hp; split at hp <;> simp [markLost, closeP, dropConn] at hp <;> omega
+      by_cases ht : ∃ dt, e = Ev.tick dt
+      · obtain ⟨dt, rfl⟩ := ht; simp [step] at hp; omega
+      have hr := rel_step c s e (fun a he => hc ⟨a, he⟩) (fun p he => hl ⟨p, he⟩) (fun d he => ht ⟨d, he⟩)
+      rw [hr.nobj] at hp; omega
+
+/-! ### under the address-reuse hypothesis: at most one live connection per address -/
+
+def UniqInv (s : St) : Prop :=
+  ∀ p q, p < s.nobj → q < s.nobj → (s.obj p).lost = false → (s.obj q).lost = false →
+    (s.obj p).addr = (s.obj q).addr → p = q
+
+theorem uniqInv_init (c : Cfg) : UniqInv (init c) := by
+  intro p q hp; simp [init] at hp
+
+/-- the reuse condition for one event -/
+def reuseCond (s : St) : Ev → Prop
+  | .connect a => allLost s a
+  | _ => True
+
+theorem uniqInv_step (c : Cfg) (s : St) (e : Ev) (h : UniqInv s) (hr : reuseCond s e) : UniqInv (step c s e).1 := by
+  by_cases hc : ∃ a, e = Ev.connect a
+  · obtain ⟨a, rfl⟩ := hc
+    simp only [reuseCond] at hr
+    simp only [step]; split
+    · exact h
+    · intro p q hp hq hpl hql hpq
+      simp only at hp hq hpl hql hpq
+      simp only [upd_apply] at hpl hql hpq
+      by_cases hpn : p = s.nobj <;> by_cases hqn : q = s.nobj
+      · omega
+      · exfalso
+        simp only [hpn, hqn, if_true, if_false] at hpq hql
+        have : q < s.nobj := by omega
+        have := hr q this hpq.symm
+        simp_all
+      · exfalso
+        simp only [hpn, hqn, if_true, if_false] at hpq hpl
+        have : p < s.nobj := by omega
+        have := hr p this hpq
+        simp_all
+      · simp only [hpn, hqn, if_false] at hpq hpl hql
+        exact h p q (by omega) (by omega) hpl hql hpq
+  · intro p q hp hq hpl hql hpq
+    have hnobj : (step c s e).1.nobj = s.nobj := by
+      by_cases hl : ∃ p, e = Ev.lose p
+      · obtain ⟨p', rfl⟩ := hl
+        simp only [step]; split <;> simp [markLost, closeP, dropConn]
+      by_cases ht : ∃ dt, e = Ev.tick dt
+      · obtain ⟨dt, rfl⟩ := ht; simp [step]
+      exact (rel_step c s e (fun a he => hc ⟨a, he⟩) (fun p he => hl ⟨p, he⟩) (fun d he => ht ⟨d, he⟩)).nobj
+    rw [hnobj] at hp hq
+    have mp := step_obj_mono c s e p hp
+    have mq := step_obj_mono c s e q hq
+    rw [mp.1, mq.1] at hpq
+    have hpl' : (s.obj p).lost = false := by
+      cases hh : (s.obj p).lost with
+      | false => rfl
+      | true => have := mp.2.2 hh; simp_all
+    have hql' : (s.obj q).lost = false := by
+      cases hh : (s.obj q).lost with
+      | false => rfl
+      | true => have := mq.2.2 hh; simp_all
+    exact h p q hp hq hpl' hql' hpq
+
+theorem reuseOK_cons (c : Cfg) (s : St) (e : Ev) (es : List Ev) :
+    ReuseOK c s (e :: es) ↔ reuseCond s e ∧ ReuseOK c (step c s e).1 es := by
+  cases e <;> simp [ReuseOK, reuseCond]
+
+/-- all invariants of reachable states under the reuse hypothesis -/
+structure Good (s : St) : Prop where
+  a : InvA s
+  clean : CleanInv s
+  uniq : UniqInv s
+
+theorem good_init (c : Cfg) : Good (init c) := ⟨invA_init c, cleanInv_init c, uniqInv_init c⟩
+
+theorem good_run (c : Cfg) (hc : c.fix13 = true) (tr : List Ev) (s : St) (h : Good s) (hr : ReuseOK c s tr) :
+    Good (run c s tr).1 := by
+  induction tr generalizing s with
+  | nil => exact h
+  | cons e es ih =>
+    rw [reuseOK_cons] at hr
+    simp only [run]
+    exact ih _ ⟨invA_step c hc s e h.a, cleanInv_step c s e h.a h.clean, uniqInv_step c s e h.uniq hr.1⟩ hr.2
+
+theorem cleanInv_run (c : Cfg) (hc : c.fix13 = true) (tr : List Ev) (s : St) (hA : InvA s) (h : CleanInv s) :
+    CleanInv (run c s tr).1 := by
+  induction tr generalizing s with
+  | nil => exact h
+  | cons e es ih => simp only [run]; exact ih _ (invA_step c hc s e hA) (cleanInv_step c s e hA h)
+
+end Hap.Sys
+
+namespace Hap.Sys
+
+/-! ### outputs -/
+
+/-- every write in `l` goes to the transport of `q` -/
+def writesOnly (q : ObjId) (l : List Out) : Prop := ∀ o ∈ l, ∀ p, o.isWriteTo p → p = q
+
+theorem writesOnly_nil (q : ObjId) : writesOnly q [] := by intro o ho; cases ho
+
+theorem writesOnly_append {q : ObjId} {l1 l2 : List Out} (h1 : writesOnly q l1) (h2 : writesOnly q l2) :
+    writesOnly q (l1 ++ l2) := by
+  intro o ho; rcases List.mem_append.mp ho with h | h
+  · exact h1 o h
+  · exact h2 o h
+
+theorem closeOuts_noWrite (q : ObjId) (t : Nat) (p : ObjId) : ∀ o ∈ closeOuts q t, ¬ o.isWriteTo p := by
+  intro o ho; simp [closeOuts] at ho; rcases ho with rfl | rfl <;> simp [Out.isWriteTo]
+
+theorem writesOnly_closeP (c : Cfg) (s : St) (q : ObjId) : writesOnly q (closeP c s q).2 := by
+  intro o ho p hp; exact absurd hp (closeOuts_noWrite q s.now p o ho)
+
+theorem writesOnly_respond (s : St) (q : ObjId) (code : Nat) (b : Body) : writesOnly q (respond s q code b).2 := by
+  intro o ho p hp; simp [respond] at ho; subst ho; simpa [Out.isWriteTo] using hp.symm
+
+theorem writesOnly_sendEvents (s : St) (q : ObjId) : writesOnly q (sendEvents s q).2 := by
+  simp only [sendEvents]
+  split
+  · exact writesOnly_nil q
+  · split
+    · exact writesOnly_nil q
+    · intro o ho p hp; simp at ho; subst ho; simpa [Out.isWriteTo] using hp.symm
+
+theorem writesOnly_onReq (c : Cfg) (s : St) (q : ObjId) (r : Req) : writesOnly q (onReq c s q r).2 := by
+  simp only [onReq]
+  split
+  · exact writesOnly_closeP c s q
+  · split
+    · exact writesOnly_closeP c s q
+    · exact writesOnly_closeP c s q
+    · rename_i x ev val cl
+      simp only [onPut]
+      have hr : writesOnly q (if (s.obj q).verified then respond (putChars c s q x ev val) q 204 Body.none
+           else respond s q 401 Body.none).2 := by
+        split <;> exact writesOnly_respond _ _ _ _
+      split
+      · exact writesOnly_append hr (writesOnly_closeP c _ q)
+      · exact hr
+    · split <;> exact writesOnly_respond _ _ _ _
+    · split <;> exact writesOnly_respond _ _ _ _
+    · exact writesOnly_nil q
+
+/-- **no write to a transport after `close()`** (one step) -/
+theorem step_silent (c : Cfg) (s : St) (e : Ev) (p : ObjId) (hA : InvA s) (hcl : (s.obj p).closing = true) :
+    ∀ o ∈ (step c s e).2, ¬ o.isWriteTo p := by
+  have hq := hA.closing_empty p hcl
+  cases e with
+  | tick dt => intro o ho; cases ho
+  | connect a => simp only [step]; split <;> (intro o ho; cases ho)
+  | verify q => simp only [step]; split <;> (intro o ho; cases ho)
+  | data q r =>
+    simp only [step]; split
+    · rename_i hen
+      intro o ho hp
+      have := writesOnly_onReq c (touch s q) q r o ho p hp
+      subst this; simp_all
+    · intro o ho; cases ho
+  | appSet x v => intro o ho; cases ho
+  | timerFire q =>
+    simp only [step]; split
+    · rename_i hen
+      intro o ho hp
+      have := writesOnly_sendEvents s q o ho p hp
+      subst this; simp_all
+    · intro o ho; cases ho
+  | soonFlush q =>
+    simp only [step]; split
+    · intro o ho hp
+      have := writesOnly_sendEvents _ q o ho p hp
+      subst this
+      simp [sendEvents, hq.1] at ho
+    · intro o ho; cases ho
+  | respReady q ok =>
+    simp only [step]; split
+    · split
+      · intro o ho; cases ho
+      · rename_i hncl
+        have hqp : q ≠ p := by intro e; subst e; simp [hcl] at hncl
+        split <;> (intro o ho hp; exact hqp (writesOnly_respond _ q _ _ o ho p hp).symm)
+    · intro o ho; cases ho
+  | lose q =>
+    simp only [step]; split
+    · intro o ho; exact closeOuts_noWrite q _ p o ho
+    · intro o ho; cases ho
+  | idleSweep =>
+    simp only [step]
+    intro o ho
+    simp only [List.mem_flatMap] at ho
+    obtain ⟨q, _, hq⟩ := ho
+    exact closeOuts_noWrite q _ p o hq
+  | stop =>
+    simp only [step]
+    intro o ho
+    simp only [List.mem_flatMap] at ho
+    obtain ⟨q, _, hq⟩ := ho
+    exact closeOuts_noWrite q _ p o hq
+
+theorem closing_step (c : Cfg) (s : St) (e : Ev) (p : ObjId) (hp : p < s.nobj) (hcl : (s.obj p).closing = true) :
+    ((step c s e).1.obj p).closing = true := (step_obj_mono c s e p hp).2.1 hcl
+
+theorem run_silent (c : Cfg) (hc : c.fix13 = true) (tr : List Ev) (s : St) (p : ObjId) (hA : InvA s)
+    (hp : p < s.nobj) (hcl : (s.obj p).closing = true) : ∀ o ∈ (run c s tr).2, ¬ o.isWriteTo p := by
+  induction tr generalizing s with
+  | nil => intro o ho; cases ho
+  | cons e es ih =>
+    intro o ho
+    simp only [run] at ho
+    rcases List.mem_append.mp ho with h | h
+    · exact step_silent c s e p hA hcl o h
+    · exact ih _ (invA_step c hc s e hA) (Nat.lt_of_lt_of_le hp (step_nobj_le c s e)) (closing_step c s e p hp hcl) o h
+
+/-! ### idle sweep -/
+
+theorem idleSweep_closes_only_idle (c : Cfg) (s : St) (p : ObjId)
+    (h0 : (s.obj p).closing = false) (h1 : ((step c s Ev.idleSweep).1.obj p).closing = true) :
+    registered s p ∧ (s.obj p).last + IDLE < s.now := by
+  simp only [step] at h1
+  split at h1
+  · rename_i h; exact h.2
+  · simp_all
+
+theorem data_refreshes (c : Cfg) (s : St) (p : ObjId) (r : Req)
+    (hen : p < s.nobj ∧ (s.obj p).closing = false) :
+    ((step c s (Ev.data p r)).1.obj p).last = s.now := by
+  simp only [step, hen, and_self, if_true, onData]
+  have ht : ((touch s p).obj p).last = s.now := by simp [touch]
+  have hr := (rel_onReq c (touch s p) p r).last p
+  have hn : (touch s p).now = s.now := rfl
+  rw [ht, hn] at hr
+  rcases hr with h | h <;> exact h
+
+/-- `last_activity` never decreases, the clock never runs backwards -/
+theorem step_last_mono (c : Cfg) (s : St) (e : Ev) (q : ObjId) (hq : q < s.nobj) (hA : InvA s) :
+    s.now ≤ (step c s e).1.now ∧ (s.obj q).last ≤ ((step c s e).1.obj q).last := by
+  by_cases hc : ∃ a, e = Ev.connect a
+  · obtain ⟨a, rfl⟩ := hc; simp only [step]; split
+    · simp
+    · simp [upd_apply, Nat.ne_of_lt hq]
+  by_cases hl : ∃ p, e = Ev.lose p
+  · obtain ⟨p, rfl⟩ := hl; simp only [step]; split
+    · simp only [markLost, closeP, dropConn, upd_apply]
+      by_cases hqp : q = p
+      · subst hqp; simp
+      · simp [hqp]
+    · simp
+  by_cases ht : ∃ dt, e = Ev.tick dt
+  · obtain ⟨dt, rfl⟩ := ht; simp [step]
+  have hr := rel_step c s e (fun a he => hc ⟨a, he⟩) (fun p he => hl ⟨p, he⟩) (fun d he => ht ⟨d, he⟩)
+  refine ⟨Nat.le_of_eq hr.now.symm, ?_⟩
+  rcases hr.last q with h | h
+  · exact Nat.le_of_eq h.symm
+  · rw [h]; exact hA.last_le q
+
+theorem run_last_mono (c : Cfg) (hc : c.fix13 = true) (tr : List Ev) (s : St) (q : ObjId) (hq : q < s.nobj) (hA : InvA s) :
+    s.now ≤ (run c s tr).1.now ∧ (s.obj q).last ≤ ((run c s tr).1.obj q).last ∧ q < (run c s tr).1.nobj := by
+  induction tr generalizing s with
+  | nil => exact ⟨Nat.le_refl _, Nat.le_refl _, hq⟩
+  | cons e es ih =>
+    simp only [run]
+    have h1 := step_last_mono c s e q hq hA
+    have h2 := ih _ (Nat.lt_of_lt_of_le hq (step_nobj_le c s e)) (invA_step c hc s e hA)
+    exact ⟨Nat.le_trans h1.1 h2.1, Nat.le_trans h1.2 h2.2.1, h2.2.2⟩
+
+end Hap.Sys
